@@ -13,7 +13,7 @@
     of [seg].  [causal segs chunks]: the segments are consecutive pieces of
     the emitted stream, each line in at most one, and the first [k] of them
     lie within what the first [k] steps emitted. *)
-From Sheens Require Import Spec.ExpectSpec Proofs.ExpectProofs Proofs.ExpectHistory.
+From Sheens Require Import Spec.ExpectSpec Proofs.ExpectProofs Proofs.ExpectHistory Proofs.ExpectNonVacuous.
 
 (** a pass is explained step by step by the emitted lines *)
 Theorem C19_sound :
@@ -68,6 +68,31 @@ Theorem C19_oracle_decides_soundness :
     exists segs, causal segs chunks /\ Forall2 step_ok steps segs.
 Proof. exact session_sound_b_iff. Qed.
 Print Assumptions C19_oracle_decides_soundness.
+
+(** no step is vacuous: the segmentation that explains a pass gives every
+    step - also one whose outputs are all forbidden - at least one JSON line,
+    so a forbidden message that is the next thing the step can see is never
+    skipped; the oracle evaluated on the implementation decides exactly this
+    stronger statement (and it implies the plain one) *)
+Theorem C19_sound_no_vacuous_step :
+  forall steps chunks,
+    expect_run steps chunks = Pass ->
+    exists segs, causal segs chunks /\
+                 Forall2 (fun outs seg => step_ok outs seg /\ has_json seg = true) steps segs.
+Proof. exact expect_run_sound_nonvacuous. Qed.
+Print Assumptions C19_sound_no_vacuous_step.
+
+Theorem C19_oracle_decides_nonvacuous_soundness :
+  forall steps chunks,
+    session_sound_nv_b steps chunks = true <-> session_sound_nv steps chunks.
+Proof. exact session_sound_nv_b_iff. Qed.
+Print Assumptions C19_oracle_decides_nonvacuous_soundness.
+
+Example C19_forbidden_only_step_is_checked :
+  let o := mk_output (JObj [("bad", JStr "?x")]) Expect.GNone true in
+  session_sound_b [[o]] [[Some (JObj [("bad", JNum 4)])]] = true /\
+  session_sound_nv_b [[o]] [[Some (JObj [("bad", JNum 4)])]] = false.
+Proof. exact forbidden_only_step_is_checked. Qed.
 
 (** converse (partial: a sufficient condition): the model does pass when,
     during every step, a JSON line and a line for every expected output of
